@@ -19,7 +19,7 @@ STD = {
     # kind -> unit (first name in config.json) -> size in the kind's base unit (exact)
     "length": {"mm": 1, "cm": 10, "dm": 100, "m": 1000, "dam": 10 ** 4, "hm": 10 ** 5, "km": 10 ** 6,
                "in": Fraction(254, 10), "ft": Fraction(254 * 12, 10), "yard": Fraction(254 * 36, 10),
-               "furlong": Fraction(254 * 36 * 220, 10), "mile": Fraction(254 * 36 * 1760, 10)},
+               "chain": Fraction(254 * 36 * 22, 10), "furlong": Fraction(254 * 36 * 220, 10), "mile": Fraction(254 * 36 * 1760, 10)},
     "weight": {"mg": 1, "cg": 10, "dg": 100, "g": 1000, "dag": 10 ** 4, "hg": 10 ** 5, "kg": 10 ** 6, "tonne": 10 ** 9,
                "oz": Fraction(283495231, 10 ** 4), "lb": Fraction(283495231 * 16, 10 ** 4), "st": Fraction(283495231 * 16 * 14, 10 ** 4)},
     "memory": dict([("bit", 1), ("byte", 8)] + [(n, 8 * 1024 ** (i + 1)) for i, n in enumerate(["kb", "mb", "gb", "tb", "pb", "eb", "zb", "yb"])]),
@@ -159,12 +159,16 @@ def check_units(tier, only):
     p_shape.functions = ["config.json types[*].items[*].{upgrade_code,downgrade_code}", "config.json type_conversion"]
     p_shape.queries = len(units)
     missing = [n for g, i, n in units if n not in STD.get(KIND_OF_GROUP.get(g, ""), {})]
-    if U.bad_codes or missing:
+    if U.bad_codes:
         p_shape.status = "inconclusive"
-        p_shape.reason = "unrecognised conversion program at %s / units without a standard definition: %s" % (U.bad_codes, missing)
+        p_shape.reason = "unrecognised conversion program at %s" % (U.bad_codes,)
         return [p_shape], D_ASSUMPTIONS, {}
+    # a unit without a definition in the table above cannot be judged against "the standard definitions": its pairs are
+    # left out of that comparison (which then cannot pass), but the algebra (round trip, transitivity) and the native
+    # comparison still speak about it
+    undefined = set(missing)
     p_shape.status = "pass"
-    p_shape.sample = {"units": [n for _, _, n in units]}
+    p_shape.sample = {"units": [n for _, _, n in units], "without_standard_definition": sorted(undefined)}
     parts.append(p_shape)
 
     # ---- the solver part: per ordered pair, the composed factor against the standard definitions
@@ -180,6 +184,8 @@ def check_units(tier, only):
             fac[(a, b)] = r
             s = z3.Solver()
             nq += 1
+            if a in undefined or b in undefined:
+                continue
             if same_kind:
                 want = Fraction(STD[KIND_OF_GROUP[ga]][a]) / Fraction(STD[KIND_OF_GROUP[gb]][b])
                 if r is None:
@@ -221,7 +227,7 @@ def check_units(tier, only):
         replayer.close()
     disagreements, checked = [], 0
     for (a, b), r in fac.items():
-        for amount in ("1", "7.5", "1@comma", "7.5@comma"):     # @comma: the default configuration (',' decimal separator)
+        for amount in ("0", "1", "7.5", "0@comma", "1@comma", "7.5@comma"):     # @comma: the default configuration (',' decimal separator)
             got = table.get((a, b, amount), "missing")
             if got == "missing":
                 continue
@@ -240,6 +246,8 @@ def check_units(tier, only):
             kb = KIND_OF_GROUP[[g for g, _, n in units if n == b][0]]
             if ka != kb:
                 return got is not None
+            if a in undefined or b in undefined:
+                return False
             want = float(Fraction(amount.split("@")[0]) * Fraction(STD[ka][a]) / Fraction(STD[kb][b]))
             return got is None or abs(got - want) > 1e-9 * max(1.0, abs(want))
         wrong = [d for d in disagreements if contradicts(d[0], d[1], d[2], d[3])]
@@ -266,6 +274,10 @@ def check_units(tier, only):
         ka, kb = KIND_OF_GROUP[[g for g, _, n in units if n == a][0]], KIND_OF_GROUP[[g for g, _, n in units if n == b][0]]
         if ka != kb:
             return got is not None
+        if a in undefined or b in undefined:
+            # no definition to contradict: a broken round trip is judged by the native round trip itself
+            back = table.get((b, a, "1"), "missing")
+            return got is not None and back not in ("missing", None) and abs(got * back - 1.0) > 1e-9
         want = float(Fraction(STD[ka][a]) / Fraction(STD[kb][b]))
         return got is None or abs(got - want) > 1e-9 * max(1.0, abs(want))
 
@@ -292,6 +304,8 @@ def check_units(tier, only):
             p_def.reason = "%d unit pairs contradict the standard definitions, e.g. 1 %s to %s: %s" % (len(confirmed), confirmed[0][0], confirmed[0][1], confirmed[0][2])
         else:
             p_def.status, p_def.reason = "inconclusive", "model reports %d wrong pairs that the native code does not confirm" % len(unl)
+    elif undefined:
+        p_def.status, p_def.reason = "inconclusive", "units without a standard definition in the check's table cannot be judged: %s" % sorted(undefined)
     else:
         p_def.status = "pass"
     parts.append(p_def)
